@@ -155,6 +155,45 @@ def r4_tag_arithmetic(cx):
             masks.append(c)
     cx.check("vlan-mask-12-bits", masks == [0x0f], site_of(fp), "the first tag byte is masked with 0x0f (12-bit VLAN id); masks found: %s" % masks)
     cx.check("no-loop", not fp.cfg.loops(), site_of(fp), "only one tag is consumed (no loop in the dissector)")
+    tag_masked_before_use(cx)
+
+
+def tag_masked_before_use(cx, label="tag"):
+    """Sibling agreement of the two address keys: the tag-control bytes are masked to the 12-bit VLAN id *before* they
+    are copied into the destination key and before the VLAN-0 test; otherwise the learned (source) key and the
+    looked-up (destination) key of one VLAN differ in the priority bits."""
+    prog = cx.prog
+    fp = [b for b in prog.bodies if b.path.endswith("payload::Frame as payload::Protocol>::parse")]
+    if len(fp) != 1:
+        from ..facts import AnchorError
+        raise AnchorError("Frame::parse not found")
+    fp = fp[0]
+    cx.touch(fp)
+    masks = []
+    for bi, si, s in fp.stmts():
+        if s["k"] == "assign" and s["rv"]["k"] == "binop" and s["rv"]["op"] == "BitAnd" and s["place"].get("p"):
+            masks.append((bi, s["place"]["l"]))
+    cx.exact(label + ":mask-stores", len(masks), 1, "masking stores (x[i] &= const) in Frame::parse")
+    if len(masks) != 1:
+        return
+    bm, arr = masks[0]
+    uses = []
+    for ci, ct in fp.calls():
+        if callee_is(ct, "slice::<impl [T]>::copy_from_slice", "slice::<impl [T]>::clone_from_slice") and len(ct["args"]) == 2:
+            r = deep_root(fp, ct["args"][1])
+            if r is not None and r["l"] == arr:
+                o = origin(fp, ct["args"][1])
+                uses.append((o[1] if o[0] == "call" else ci, "copy of the tag into the other address"))
+    for (b, bi, t, la, lb) in eq_sites(prog, bodies=[fp]):
+        for a in t["args"]:
+            r = deep_root(fp, a)
+            if r is not None and r["l"] == arr:
+                o = origin(fp, a)
+                uses.append((o[1] if o[0] == "call" else bi, "comparison of the tag (VLAN 0 test)"))
+    cx.floor(label + ":tag-uses", len(uses), 2, "uses of the tag bytes after they were read")
+    for bu, what in uses:
+        cx.check(label + ":masked-before:" + what, fp.cfg.dominates(bm, bu), site_of(fp, bu),
+                 "the 12-bit mask is applied before the %s" % what)
 
 
 def _promoted_array(body, op):
